@@ -78,6 +78,9 @@ def core_definitions():
     # zero-size data at the END of the declaration order (and a variant of zero-size data only)
     ds.append(("zst_tail", ["clone", "serde"], [A("id", "P4"), A("name", "Str"), A("marker", "Zst"), C(), A("tail2", "ZstDrop"), C(),
                                                 R("id"), R("name"), C()]))
+    # several zero-size droppable data of ONE type, which end up at the same offset
+    ds.append(("two_zst_same_type", ["clone", "serde"], [A("t", "Tracked"), A("g1", "ZstDrop"), A("g2", "ZstDrop"), A("z1", "Zst"), A("z2", "Zst"), C(),
+                                                         R("g1"), A("g3", "ZstDrop"), C(), R("t"), C("basic")]))
     # a zero-size datum is the most-aligned field of the definition (alignment marker)
     ds.append(("zst_overalign", ["clone"], [A("a", "P4"), A("b", "P2"), A("c", "Odd3"), C(), R("a"), A("marker", "ZstA8"), C(),
                                             A("t", "TrackedOdd"), C("basic")]))
